@@ -49,7 +49,7 @@ def run_case(case):
     fails = []
     dup = [k for k, n in collections.Counter(keys).items() if n > 1]
     if dup:
-        fails.append({"sig": f"duplicate_violation:{dup[0][0]}", "detail": {"dup": dup[:3], "source": r["source"][:400]}})
+        fails.append({"sig": "duplicate_violation", "detail": {"rule": dup[0][0], "dup": dup[:3], "source": r["source"][:400]}})
     order = [(v.line_no, v.line_pos) for v in viols]
     if order != sorted(order):
         fails.append({"sig": "violations_not_in_source_order", "detail": {"order": order[:12], "source": r["source"][:300]}})
